@@ -396,3 +396,58 @@ Theorem C03_prima_bits_ber_contents_accepted : forall body u (bs : list bool),
     Some (firstn (Z.to_nat (8 * zlen body - u)) (bytes_bits body)).
 Proof. exact bits_of_contents_accepts. Qed.
 Print Assumptions C03_prima_bits_ber_contents_accepted.
+(* ---- round c03w: XER, "unknown extension additions are skipped" for ARBITRARY XML subtrees (coq/Rt/XerSkip.v, XerSkipProofs.v) ----
+   The step function is the model of xer_skip_unknown() of Rt/SafetySkip.v (C04 proves it safe); here its COMPLETENESS: over every
+   well-formed XML forest - an inductive tree type with arbitrary element names, among them the name N of the element being decoded,
+   which xer_check_tag() classifies differently - the machine consumes exactly the unknown element and stops with depth 0. *)
+From A1 Require Import Rt.SafetySkip Rt.XerSkip Rt.XerSkipProofs.
+
+(* a well-formed subtree met while skipping leaves the depth counter where it was and does not end the skip (any depth > 0, any
+   names, any accumulated counts, whatever follows) *)
+Theorem C03_xer_skip_subtree_neutral : forall N f rest d a b, 0 < d ->
+  skip_run N (flatf f ++ rest) d a b = skip_run N rest d (ntags (flatf f) + a)%nat (length (flatf f) + b)%nat.
+Proof. exact forest_neutral. Qed.
+Print Assumptions C03_xer_skip_subtree_neutral.
+
+(* started behind the opening tag of an unknown element <n>, the skip ends exactly at that element's closing tag, depth 0, for EVERY
+   content; the answer is 1 (caller advances over the closing tag), or 2 when the element itself carries the name N *)
+Theorem C03_xer_skip_complete : forall N n kids rest,
+  skip_run N (flatf kids ++ TClose n :: rest) 1 0%nat 0%nat =
+  ((if n =? N then 2 else 1), 0, S (ntags (flatf kids)), ((if (n =? N)%Z then 0 else 1) + length (flatf kids))%nat).
+Proof. exact skip_complete. Qed.
+Print Assumptions C03_xer_skip_complete.
+
+(* together with the opening tag the caller consumed before: the whole element, nothing more *)
+Theorem C03_xer_skip_consumes_exactly_the_element : forall N n kids rest, n <> N ->
+  skip_run N (flatf kids ++ TClose n :: rest) 1 0%nat 0%nat = (1, 0, S (ntags (flatf kids)), (length (flat (XNode n kids)) - 1)%nat).
+Proof. exact skip_consumes_element. Qed.
+Print Assumptions C03_xer_skip_consumes_exactly_the_element.
+
+(* the names inside the subtree are irrelevant: subtrees with the same numbers of tags and tokens are skipped alike *)
+Theorem C03_xer_skip_names_irrelevant : forall N n kids1 kids2 rest1 rest2,
+  ntags (flatf kids1) = ntags (flatf kids2) -> length (flatf kids1) = length (flatf kids2) ->
+  skip_run N (flatf kids1 ++ TClose n :: rest1) 1 0%nat 0%nat = skip_run N (flatf kids2 ++ TClose n :: rest2) 1 0%nat 0%nat.
+Proof. exact skip_names_irrelevant. Qed.
+Print Assumptions C03_xer_skip_names_irrelevant.
+
+(* the name-sensitive variant of seeded/C03-9 (a closing tag named N ends the skip at once) is NOT complete: <1><0>text</0></1> in element 0 *)
+Theorem C03_xer_skip_name_sensitive_variant_refuted : exists N n kids rest, n <> N /\
+  skip_run_seed N (flatf kids ++ TClose n :: rest) 1 0%nat 0%nat <> (1, 0, S (ntags (flatf kids)), (length (flat (XNode n kids)) - 1)%nat).
+Proof. exact skip_seed_refuted. Qed.
+Print Assumptions C03_xer_skip_name_sensitive_variant_refuted.
+
+(* the whole extensions section as SEQUENCE_decode_xer / SET_decode_xer walk it (phases 1 and 3): ANY number of unknown additions with
+   arbitrary subtrees, then the closing tag of the element being decoded -> RC_OK, everything consumed.  Side conditions: the additions
+   do not carry a known member's name, and an addition written with separate opening and closing tags does not carry the name N itself *)
+Theorem C03_xer_extensions_section_complete : forall N known f rest k,
+  forallb (root_unknown known) f = true -> forallb (root_not_encl N) f = true ->
+  ext_run N known (flatf f ++ TClose N :: rest) Ph1 k = XDone (length (flatf f) + 1 + k)%nat.
+Proof. exact ext_section_complete. Qed.
+Print Assumptions C03_xer_extensions_section_complete.
+
+(* ... the second side condition is needed (finding C03-xer-unknown-addition-named-like-enclosing): <0><0>text</0></0> ends early *)
+Theorem C03_xer_extensions_section_own_name_refuted : exists N f rest,
+  forallb (root_unknown (fun _ => false)) f = true /\
+  ext_run N (fun _ => false) (flatf f ++ TClose N :: rest) Ph1 0%nat <> XDone (length (flatf f) + 1)%nat.
+Proof. exact ext_section_own_name_refuted. Qed.
+Print Assumptions C03_xer_extensions_section_own_name_refuted.
